@@ -26,12 +26,21 @@ local function num(r, le, signed)
 end
 function Range:uint() if self.len > 4 then error("uint() on a range of " .. self.len .. " bytes") end return num(self, false, false) end
 function Range:le_uint() if self.len > 4 then error("le_uint() on a range of " .. self.len .. " bytes") end return num(self, true, false) end
-function Range:uint64() return num(self, false, false) end
-function Range:le_uint64() return num(self, true, false) end
+-- Wireshark returns UInt64/Int64 userdata for 64-bit accessors, not Lua numbers: they never
+-- compare equal to a number with ==, and need :tonumber() / tostring() to be used as one.
+local Int64 = {}
+Int64.__index = Int64
+Int64.__eq = function(a, b) return getmetatable(a) == Int64 and getmetatable(b) == Int64 and a.v == b.v end
+Int64.__tostring = function(a) return a.unsigned and string.format("%u", a.v) or tostring(a.v) end
+Int64.__concat = function(a, b) return tostring(a) .. tostring(b) end
+function Int64:tonumber() return self.v end
+local function box64(v, unsigned) return setmetatable({v = v, unsigned = unsigned}, Int64) end
+function Range:uint64() return box64(num(self, false, false), true) end
+function Range:le_uint64() return box64(num(self, true, false), true) end
 function Range:int() if self.len > 4 then error("int() on a range of " .. self.len .. " bytes") end return num(self, false, true) end
 function Range:le_int() if self.len > 4 then error("le_int() on a range of " .. self.len .. " bytes") end return num(self, true, true) end
-function Range:int64() return num(self, false, true) end
-function Range:le_int64() return num(self, true, true) end
+function Range:int64() return box64(num(self, false, true), false) end
+function Range:le_int64() return box64(num(self, true, true), false) end
 function Range:float() return 0.0 end
 function Range:le_float() return 0.0 end
 function Range:string() return self.data:sub(self.off + 1, self.off + self.len) end
